@@ -102,7 +102,8 @@ def _solve_part(part):
             groups.setdefault(o.id.split("[")[-1] + o.id.split("/")[1], o)
     cans = [Oblig("canary:" + o.id, o.hyps, BoolVal(False), "canary") for o in list(groups.values())[:2]]
     discharge(cans, timeout_s=5, modes=("direct",), jobs=_PART_CTX["jobs"])
-    return ("ok", part, [LightOblig(o) for o in obs], [(c.id, c.status) for c in cans])
+    from . import engine, prims
+    return ("ok", part, [LightOblig(o) for o in obs], [(c.id, c.status) for c in cans], (dict(engine.EXECUTED), sorted(engine.CONTRACTED), sorted(prims.USED)))
 
 
 def classify(obs):
@@ -134,6 +135,7 @@ def prove(chk, build, ground_sizes=(), replay=None, timeout=None, known_ok=None,
                 chk.undecided.append(f"{chk.pid}/engine[{res[1]}]:{res[2][:120]}")
                 continue
             obs += res[2]
+            chk.absorb_meta(*res[4])
             for cid, st in res[3]:
                 chk.vacuity.append({"canary": cid, "status": st})
                 if st == "unsat":
